@@ -399,6 +399,36 @@ fn execute(sc: &Scenario) -> RunOutcome {
             return out;
         }
     };
+    // S0: the uniform bulk profile (no external potential) on this scenario's kind of grid is a
+    // stationary point - the FFT convolver, the weight functions and the bulk convolver agree
+    // (measured on the pinned tree: <= 5e-14 relative for every functional, geometry and grid size)
+    {
+        use feos_dft::{Axis as Ax, DFTProfile, Grid};
+        let mut bulks = vec![obj.profile().bulk.clone()];
+        if let Obj::Interface(i) = &obj {
+            bulks.push(i.vle.liquid().clone());
+        }
+        for b in bulks {
+            let w = 40.0 * ANGSTROM;
+            let grid = match &sc.kind {
+                Kind::Interface { .. } | Kind::Pore { geometry: 0, .. } => Grid::Cartesian1(Ax::new_cartesian(sc.n_grid, w, None)),
+                Kind::Pore { geometry: 1, .. } => Grid::Polar(Ax::new_polar(sc.n_grid, w)),
+                _ => Grid::Spherical(Ax::new_spherical(sc.n_grid, w)),
+            };
+            let r = guarded(|| {
+                let p = DFTProfile::<ndarray::Ix1, F>::new(grid, &b, None, None, None);
+                let rho = p.density.to_reduced();
+                p.residual(false).map(|x| x.0.iter().zip(rho.iter()).map(|(a, b)| (a / b).abs()).fold(0.0, f64::max)).map_err(|e| e.to_string())
+            });
+            if let Ok(worst) = r {
+                out.count("oracle.uniform_profile_stationary", 1);
+                out.max("uniform_profile_relative_residual", worst);
+                if !(worst <= 1e-9) {
+                    out.violate("uniform-not-stationary", "uniform", format!("{} n={}: the uniform profile at the bulk density {:e} has a relative Euler-Lagrange residual of {worst:e}", sys.name, sc.n_grid, b.density.to_reduced()));
+                }
+            }
+        }
+    }
     let initial_density = obj.profile().density.clone();
     let mut initial_bulk = obj.profile().bulk.partial_density.to_reduced();
     let mut bulk_factor = 1.0f64;
@@ -774,8 +804,9 @@ impl Engine for C18 {
         let pore = rng.chance(0.4);
         let pair = !pore && rng.chance(0.25);
         let n_grid = match tier {
-            Tier::Quick => *rng.pick(&[128usize, 256, 512]),
-            Tier::Thorough => *rng.pick(&[128usize, 256, 512, 1024]),
+            // (powers of two, even and odd sizes: the transforms take different code paths)
+            Tier::Quick => *rng.pick(&[128usize, 256, 512, 129, 200]),
+            Tier::Thorough => *rng.pick(&[128usize, 256, 512, 1024, 129, 200, 257, 333]),
         };
         let tf = rng.uniform(0.5, 0.93);
         let kind = if pore {
@@ -965,4 +996,33 @@ pub(crate) fn independent_residual<F: feos_dft::HelmholtzEnergyFunctional>(p: &f
     let ss: f64 = rho.iter().zip(proj.iter()).map(|(a, b)| (a - b) * (a - b)).sum();
     let r = (ss / n).sqrt();
     r.is_finite().then_some(r)
+}
+
+
+/// debugging aid: residual of the uniform bulk profile (no external potential) on several grids
+pub fn debug_uniform() {
+    use feos_dft::{Axis as Ax, DFTProfile, Grid};
+    for sys in &pool().systems {
+        let moles = match sys.binary_x {
+            None => arr1(&[1.0]) * MOL,
+            Some(x) => arr1(&[x, 1.0 - x]) * MOL,
+        };
+        for (tf, rf) in [(1.3, 0.3), (1.2, 1.8), (0.8, 2.6)] {
+            let Ok(bulk) = State::new_nvt(&sys.func, tf * sys.tc * KELVIN, moles.sum() / Density::from_reduced(rf * sys.rhoc), &moles) else { continue };
+            for n in [100usize, 128, 129, 257] {
+                for (gname, grid) in [
+                    ("cartesian", Grid::Cartesian1(Ax::new_cartesian(n, 40.0 * ANGSTROM, None))),
+                    ("spherical", Grid::Spherical(Ax::new_spherical(n, 40.0 * ANGSTROM))),
+                    ("polar", Grid::Polar(Ax::new_polar(n, 40.0 * ANGSTROM))),
+                ] {
+                    let p = DFTProfile::<ndarray::Ix1, F>::new(grid, &bulk, None, None, None);
+                    let r = p.residual(false).map(|x| x.2);
+                    let rho = p.density.to_reduced();
+                    let res = p.residual(false).ok().map(|x| x.0);
+                    let worst = res.map(|r| r.iter().zip(rho.iter()).map(|(a, b)| (a / b).abs()).fold(0.0, f64::max));
+                    println!("{} T={tf}Tc rho={rf}rhoc n={n} {gname}: norm {:?} worst relative {:?}", sys.name, r, worst);
+                }
+            }
+        }
+    }
 }
